@@ -300,6 +300,10 @@ class Evaluator:
                 if v is not None and v[0] == 'ref':
                     path = v[1]
                     continue
+                if v is not None and v[0] == 'in':
+                    # a reference that lives in caller memory: its pointee is addressed through that memory
+                    path = v[1] + ('deref',)
+                    continue
                 path = path + ('deref',)
             elif isinstance(e, dict) and 'f' in e:
                 path = path + (('f', e['n']),)
@@ -552,7 +556,7 @@ class Evaluator:
                 uid = (blk, st.uid)
             res = ('call', name, tuple(self.deref_val(st, a) if a[0] == 'ref' else a for a in args), uid)
         ev = {'kind': 'call', 'block': blk, 'callee': name, 'name': c.get('name') if c else None,
-              'fn': c, 'args': args, 'result': res, 'mut_paths': list(mut_paths), 'loops': st.loops_seen,
+              'fn': c, 'args': args, 'args_val': [self.deref_val(st, a) for a in args], 'result': res, 'mut_paths': list(mut_paths), 'loops': st.loops_seen,
               'span': term['span']['at'], 'unsafe': bool(c and c.get('unsafe')), 'uid': uid}
         st.events.append(ev)
         if uid is not None:
@@ -605,8 +609,12 @@ class Evaluator:
                 paths.append((p['l'],))
         # havoc shortest paths first so that longer ones are not resurrected
         paths = sorted(set(paths), key=lambda x: (len(x), repr(x)))
+        pre = {}
+        for path in paths:
+            pre[path] = self.read(st, path)
         for path in paths:
             self.write(st, path, ('loop', head, path))
+        return pre
 
     # ---- main driver
     def run(self, entry_store=None):
@@ -628,9 +636,9 @@ class Evaluator:
                         results.append(PathResult('cut', None, st.events, st.preds, st.store, st.blocks + [blk], blk))
                         break
                 if blk in self.loops and blk not in st.loops_seen:
-                    self.havoc_loop(st, blk)
+                    pre = self.havoc_loop(st, blk)
                     st.loops_seen = st.loops_seen + (blk,)
-                    st.events.append({'kind': 'loop_enter', 'block': blk, 'head': blk})
+                    st.events.append({'kind': 'loop_enter', 'block': blk, 'head': blk, 'pre': pre})
                 st.blocks.append(blk)
                 b = self.body.blocks[blk]
                 for s in b['stmts']:
